@@ -135,12 +135,16 @@ func TestWorker(t *testing.T) {
 	// or the 500th (exploration). A throw-away run per process absorbs those one-time
 	// effects; the order-permuting self-test checks that nothing else leaks between runs.
 	if os.Getenv("DSIM_WARMUP") != "0" {
+		// (DSIM-START is printed for warm-up runs too: a panic of the code under test during
+		// warm-up is attributed to a seed and reported as a violation, not as an infra error.)
 		for i := 0; i < 3; i++ {
+			fmt.Printf("DSIM-START %d\n", dsim.Mix(0x5eed, dsim.HashStr(spec.ID), uint64(i)))
 			runSeed(t, spec, dsim.Mix(0x5eed, dsim.HashStr(spec.ID), uint64(i)), nil, false, nil, false)
 		}
 		for i, mk := range spec.Warm {
 			ws := *spec
 			ws.New = mk
+			fmt.Printf("DSIM-START %d\n", dsim.Mix(0x5eed, dsim.HashStr(spec.ID), uint64(100+i)))
 			runSeed(t, &ws, dsim.Mix(0x5eed, dsim.HashStr(spec.ID), uint64(100+i)), nil, false, nil, false)
 		}
 		dsim.LastInfra = nil
